@@ -304,6 +304,16 @@ func (c *FnCtx) typeFacts(t types.Type, term string) string {
 		if _, ok := u.Elem().Underlying().(*types.Struct); ok {
 			return "(>= " + term + " 0)"
 		}
+		// a pointer to a non-struct value is nil or denotes a heap cell, a slice/array element
+		// or a struct field of exactly that type
+		alts := []string{eq(term, "pnil"), and(app("(_ is pcell)", term), app(">", app("pc_ref", term), "0")), and(app("(_ is pelem)", term), app(">", app("pe_base", term), "0"))}
+		if c.eng != nil {
+			for _, fc := range c.eng.fieldsOfType(u.Elem()) {
+				name, _ := c.fieldHeap(fc.st, fc.idx)
+				alts = append(alts, and(app("(_ is pfield)", term), eq(app("pf_id", term), fmt.Sprint(c.fieldID(name))), app(">", app("pf_ref", term), "0")))
+			}
+		}
+		return or(alts...)
 	case *types.Map, *types.Chan, *types.Signature, *types.Interface:
 		return "(>= " + term + " 0)"
 	}
